@@ -327,8 +327,10 @@ func Build(p Params) *Spec {
 	inner.Fields = append(inner.Fields,
 		b.field("proto3", pal.FKind, Type{Enum: innerEnum}, 1, ""),
 		b.field("proto3", pal.FOuter, Type{Msg: mid}, 2, ""))
-	holder := &Message{Name: pal.Holder, Doc: p.Doc, Messages: []*Message{inner}}
+	// nested declarations first, then fields incl. a map (its synthetic entry message follows Slot)
+	holder := &Message{Name: pal.Holder, Doc: p.Doc, Messages: []*Message{inner}, NestedFirst: true}
 	holder.Fields = append(holder.Fields,
+		b.field("proto3", pal.FCounts, Type{MapKey: "string", MapVal: &Type{Msg: inner}}, 6, ""),
 		b.field("proto3", pal.FOuter, Type{Msg: outer}, 1, ""),
 		b.field("proto3", pal.FKind, Type{Enum: bEnum}, 2, ""),
 		b.field("proto3", pal.FMid, Type{Msg: inner}, 3, "repeated"))
@@ -408,6 +410,10 @@ func Build(p Params) *Spec {
 		fd.Extends = append(fd.Extends, &Extend{Target: Type{Msg: legacy}, Fields: []*Field{
 			b.field("proto2", "top_"+pal.FCount, scalar("int32"), 100, ""),
 			b.field("proto2", "top_"+pal.FTags, scalar("string"), 103, "repeated"),
+		}})
+		// a second extend block of the same scope: extension indexes continue across blocks
+		fd.Extends = append(fd.Extends, &Extend{Target: Type{Msg: legacy}, Fields: []*Field{
+			b.field("proto2", "more_"+pal.FNote, scalar("bytes"), 104, ""),
 		}})
 
 		fe := &File{Dir: pal.PkgE + "/" + ver, Base: pal.FileE + ".proto", Syntax: "editions", Header: p.Header,
